@@ -775,6 +775,8 @@ pub(crate) async fn invoke_command_in_subshell_and_get_output(
     let mut async_reader = sys::async_pipe::AsyncPipeReader::new(reader)?;
 
     let cmd_join_handle = tokio::spawn(run_substitution_command(subshell, params, s));
+    #[cfg(feature = "verif-hooks")]
+    crate::verif::pause("cmdsubst_reader_start");
 
     let output_str = async_reader.read_to_string().await?;
 
